@@ -33,6 +33,9 @@ const (
 	// another TOP-LEVEL name, of another owner, whose label ENDS with the label of a.ol: in the store's
 	// reversed-name key order it lies right behind a.ol's sub-names ("lo.a." < "lo.ab" < "lo.a~")
 	nameD = "ba.ol"
+	// a name that differs from a.ol in the CASE of a letter only (the name pattern admits upper-case letters): it
+	// is another name, with another key - unless some layer normalises the spelling and another does not
+	nameE = "A.ol"
 )
 
 type opKind int
@@ -152,6 +155,7 @@ var (
 	oSubA      = op{Name: "create(A,b.a.ol,11)", Kind: opCreate, Actor: 0, Domain: nameB, Price: 11, Benef: 1, Legit: true, MinDepth: 2}
 	oSubC      = op{Name: "create(A,c.a.ol,11)", Kind: opCreate, Actor: 0, Domain: nameC, Price: 11, Benef: 0, Legit: true, MinDepth: 2}
 	oCreateD   = op{Name: "create(C,ba.ol,40)", Kind: opCreate, Actor: 2, Domain: nameD, Price: 40, Benef: 2, Legit: true, MinDepth: 1}
+	oCreateE   = op{Name: "create(C,A.ol,40)", Kind: opCreate, Actor: 2, Domain: nameE, Price: 40, Benef: 2, Legit: true, MinDepth: 1}
 	oSubB      = op{Name: "create(B,b.a.ol,11)", Kind: opCreate, Actor: 1, Domain: nameB, Price: 11, Benef: 1, Legit: true, MinDepth: 2}
 	oUpdA      = op{Name: "update(A,a.ol,benef=C)", Kind: opUpdate, Actor: 0, Domain: nameA, Benef: 2, Active: true, Legit: true, MinDepth: 2}
 	oUpdB      = op{Name: "update(B,a.ol,benef=B)", Kind: opUpdate, Actor: 1, Domain: nameA, Benef: 1, Active: true, Legit: true, MinDepth: 2}
@@ -216,6 +220,9 @@ func Events(tier string) []event {
 		// (added after a seeded change - the walk over a name's sub-names covering every name whose label ends
 		// with the parent's label - escaped the alphabet with a single top-level name)
 		single(oCreateD),
+		// (added after a seeded change - names lower-cased when the record is written but not when its existence is
+		// tested, so that creating "A.ol" overwrote a.ol - escaped the all-lower-case alphabet)
+		single(oCreateE),
 	}
 	if tier == "thorough" {
 		ev = append(ev,
